@@ -31,6 +31,8 @@ type Graph struct {
 	assignCount map[*types.Var]int
 	assumedFn   func(Fact) bool // set while a query with Assume runs
 	flagIx      map[*types.Var]int
+	enumIx      map[*types.Var]int      // tracked locals that only ever hold one of at most three constants: slot in the valuation
+	enumVals    map[*types.Var][]string // their values (constant.ExactString), state k+1 of the slot = enumVals[v][k]
 	intFlag     map[*types.Var]bool // tracked flags of integer type that only ever hold the constants 0 and 1
 	iifeAssigns map[*ast.ExprStmt][]*types.Var // variables assigned inside a literal that the statement calls on the spot
 	entryVals   map[*GNode]map[Val]bool // valuations with which each node is reached from the entry (lazily, no assumption)
@@ -117,7 +119,7 @@ func (p *Prog) GraphOfLit(l *Lit) *Graph {
 
 func (p *Prog) buildGraph(pk *packages.Package, f *Func, l *Lit, body *ast.BlockStmt) *Graph {
 	info := pk.TypesInfo
-	g := &Graph{P: p, Pkg: pk, Info: info, Fn: f, Lit: l, Body: body, flagIx: map[*types.Var]int{}, nilIx: map[*types.Var]int{}, switchTag: map[ast.Expr]ast.Expr{}}
+	g := &Graph{P: p, Pkg: pk, Info: info, Fn: f, Lit: l, Body: body, flagIx: map[*types.Var]int{}, nilIx: map[*types.Var]int{}, enumIx: map[*types.Var]int{}, enumVals: map[*types.Var][]string{}, switchTag: map[ast.Expr]ast.Expr{}}
 	c := cfg.New(body, func(call *ast.CallExpr) bool { return !noReturnCall(info, call) })
 
 	// switch tags
@@ -538,6 +540,246 @@ func (g *Graph) findFlags() {
 	for i, v := range nils {
 		g.nilIx[v] = len(flags) + i
 	}
+	// small enumerations: locals of a basic type (not bool) whose every assignment in this body is a constant, with at
+	// most three distinct values (the zero value counts when the variable is declared without one), never assigned in
+	// a nested literal, address never taken
+	type ev struct {
+		vals map[string]bool
+		bad  bool
+	}
+	enums := map[*types.Var]*ev{}
+	get := func(e ast.Expr) (*types.Var, *ev) {
+		id, ok := ast.Unparen(e).(*ast.Ident)
+		if !ok {
+			return nil, nil
+		}
+		var obj types.Object = info.Defs[id]
+		if obj == nil {
+			obj = info.Uses[id]
+		}
+		v, ok := obj.(*types.Var)
+		if !ok || v.IsField() || (v.Pkg() != nil && v.Parent() == v.Pkg().Scope()) {
+			return nil, nil
+		}
+		b, ok := v.Type().Underlying().(*types.Basic)
+		if !ok || b.Kind() == types.Bool || b.Info()&(types.IsInteger|types.IsString) == 0 {
+			return nil, nil
+		}
+		if _, tracked := g.flagIx[v]; tracked {
+			return nil, nil
+		}
+		x := enums[v]
+		if x == nil {
+			x = &ev{vals: map[string]bool{}}
+			enums[v] = x
+		}
+		return v, x
+	}
+	var scan func(n ast.Node, here bool)
+	scan = func(n ast.Node, here bool) {
+		ast.Inspect(n, func(m ast.Node) bool {
+			setc := func(l, r ast.Expr, plain bool) {
+				_, x := get(l)
+				if x == nil {
+					return
+				}
+				if !here || !plain {
+					x.bad = true
+					return
+				}
+				if r == nil {
+					x.vals["<zero>"] = true
+					return
+				}
+				tv, ok := info.Types[r]
+				if !ok || tv.Value == nil {
+					x.bad = true
+					return
+				}
+				x.vals[tv.Value.ExactString()] = true
+			}
+			switch t := m.(type) {
+			case *ast.FuncLit:
+				if m != n {
+					scan(t.Body, false)
+					return false
+				}
+			case *ast.AssignStmt:
+				for i, l := range t.Lhs {
+					if len(t.Lhs) == len(t.Rhs) {
+						setc(l, t.Rhs[i], t.Tok == token.ASSIGN || t.Tok == token.DEFINE)
+					} else {
+						setc(l, nil, false)
+					}
+				}
+			case *ast.IncDecStmt:
+				setc(t.X, nil, false)
+			case *ast.RangeStmt:
+				if t.Key != nil {
+					setc(t.Key, nil, false)
+				}
+				if t.Value != nil {
+					setc(t.Value, nil, false)
+				}
+			case *ast.ValueSpec:
+				for i, nm := range t.Names {
+					if len(t.Values) == len(t.Names) {
+						setc(nm, t.Values[i], true)
+					} else if len(t.Values) == 0 {
+						setc(nm, nil, true)
+					} else {
+						setc(nm, nil, false)
+					}
+				}
+			case *ast.UnaryExpr:
+				if t.Op == token.AND {
+					if _, x := get(t.X); x != nil {
+						x.bad = true
+					}
+				}
+			}
+			return true
+		})
+	}
+	scan(g.Body, true)
+	var evars []*types.Var
+	for v, x := range enums {
+		// declared in this body (a parameter or a captured variable can hold anything on entry)
+		if x.bad || len(x.vals) == 0 || len(x.vals) > 3 || !(g.Body.Pos() <= v.Pos() && v.Pos() < g.Body.End()) {
+			continue
+		}
+		evars = append(evars, v)
+	}
+	sort.Slice(evars, func(i, j int) bool { return evars[i].Pos() < evars[j].Pos() })
+	used := len(flags) + len(nils)
+	for _, v := range evars {
+		if used >= maxTracked {
+			break
+		}
+		var vals []string
+		for k := range enums[v].vals {
+			if k == "<zero>" {
+				if b := v.Type().Underlying().(*types.Basic); b.Info()&types.IsString != 0 {
+					k = `""`
+				} else {
+					k = "0"
+				}
+			}
+			dup := false
+			for _, o := range vals {
+				if o == k {
+					dup = true
+				}
+			}
+			if !dup {
+				vals = append(vals, k)
+			}
+		}
+		sort.Strings(vals)
+		g.enumIx[v] = used
+		g.enumVals[v] = vals
+		used++
+	}
+}
+
+// tagEdge: an edge of a `switch x { case c: }` over a tracked enumeration - feasible? and the valuation after it.
+func (g *Graph) tagEdge(e *GEdge, v Val) (bool, Val) {
+	ev, ei, isE := g.enumOf(e.Tag)
+	if !isE {
+		return true, v
+	}
+	tv, has := g.Info.Types[e.Cond]
+	if !has || tv.Value == nil {
+		return true, v
+	}
+	c := tv.Value.ExactString()
+	r := g.evalEnumEq(ev, ei, c, v)
+	if (e.Taken && r == tvF) || (!e.Taken && r == tvT) {
+		return false, v
+	}
+	return true, g.assumeEnumEq(ev, ei, c, e.Taken, v)
+}
+
+// enumOf: e is a tracked enumeration local.
+func (g *Graph) enumOf(e ast.Expr) (*types.Var, int, bool) {
+	id, ok := ast.Unparen(e).(*ast.Ident)
+	if !ok {
+		return nil, 0, false
+	}
+	var obj types.Object = g.Info.Uses[id]
+	if obj == nil {
+		obj = g.Info.Defs[id]
+	}
+	v, ok := obj.(*types.Var)
+	if !ok {
+		return nil, 0, false
+	}
+	i, ok := g.enumIx[v]
+	return v, i, ok
+}
+
+func (g *Graph) enumState(v *types.Var, c string) int {
+	for k, x := range g.enumVals[v] {
+		if x == c {
+			return k + 1
+		}
+	}
+	return 0
+}
+
+// enumTest decomposes `x == c` / `x != c` (either order) over a tracked enumeration: the variable, its slot, the
+// constant, and whether the expression states equality.
+func (g *Graph) enumTest(e ast.Expr) (*types.Var, int, string, bool, bool) {
+	b, ok := ast.Unparen(e).(*ast.BinaryExpr)
+	if !ok || (b.Op != token.EQL && b.Op != token.NEQ) {
+		return nil, 0, "", false, false
+	}
+	x, y := b.X, b.Y
+	if _, _, isE := g.enumOf(x); !isE {
+		x, y = y, x
+	}
+	v, i, isE := g.enumOf(x)
+	if !isE {
+		return nil, 0, "", false, false
+	}
+	tv, has := g.Info.Types[y]
+	if !has || tv.Value == nil {
+		return nil, 0, "", false, false
+	}
+	return v, i, tv.Value.ExactString(), b.Op == token.EQL, true
+}
+
+// evalEnumEq: three-valued truth of `x == c` under a valuation.
+func (g *Graph) evalEnumEq(v *types.Var, i int, c string, val Val) int {
+	want := g.enumState(v, c)
+	if want == 0 {
+		return tvF // the variable never holds that constant
+	}
+	s := val.get(i)
+	if s == 0 {
+		if len(g.enumVals[v]) == 1 {
+			return tvT
+		}
+		return tvU
+	}
+	if s == want {
+		return tvT
+	}
+	return tvF
+}
+
+func (g *Graph) assumeEnumEq(v *types.Var, i int, c string, holds bool, val Val) Val {
+	want := g.enumState(v, c)
+	if want == 0 {
+		return val
+	}
+	if holds {
+		return val.set(i, want)
+	}
+	if len(g.enumVals[v]) == 2 {
+		return val.set(i, 3-want) // the other of the two values
+	}
+	return val
 }
 
 const maxTracked = 30
@@ -728,6 +970,16 @@ func (g *Graph) eval(e ast.Expr, v Val) int {
 			return tvF
 		}
 	}
+	if ev, ei, c, isEq, ok := g.enumTest(e); ok {
+		r := g.evalEnumEq(ev, ei, c, v)
+		if r == tvU || isEq {
+			return r
+		}
+		if r == tvT {
+			return tvF
+		}
+		return tvT
+	}
 	if i, set, ok := g.intTest(e); ok {
 		switch r := v.get(i); {
 		case r == tvU:
@@ -838,6 +1090,9 @@ func (g *Graph) assume(e ast.Expr, want bool, v Val) Val {
 		}
 		return v.set(i, tvF)
 	}
+	if ev, ei, c, isEq, ok := g.enumTest(e); ok {
+		return g.assumeEnumEq(ev, ei, c, want == isEq, v)
+	}
 	if i, set, ok := g.intTest(e); ok {
 		if want == set {
 			return v.set(i, tvT)
@@ -897,6 +1152,20 @@ func (g *Graph) transfer(n *GNode, v Val) Val {
 			v = v.set(i, g.evalNonNil(rhs, v))
 			return
 		}
+		if ev, ei, isE := g.enumOf(lhs); isE {
+			st := 0
+			if rhs == nil {
+				zero := "0"
+				if b := ev.Type().Underlying().(*types.Basic); b.Info()&types.IsString != 0 {
+					zero = `""`
+				}
+				st = g.enumState(ev, zero)
+			} else if tv, has := g.Info.Types[rhs]; has && tv.Value != nil {
+				st = g.enumState(ev, tv.Value.ExactString())
+			}
+			v = v.set(ei, st)
+			return
+		}
 		i, ok := g.flagOf(lhs)
 		if !ok {
 			return
@@ -937,6 +1206,9 @@ func (g *Graph) transfer(n *GNode, v Val) Val {
 				}
 				if i, ok := g.nilVarOf(l); ok {
 					v = v.set(i, tvU)
+				}
+				if _, i, ok := g.enumOf(l); ok {
+					v = v.set(i, 0)
 				}
 			}
 		}
@@ -1500,6 +1772,13 @@ func (g *Graph) Reach(q Query) map[*GNode]bool {
 				}
 				nv = g.assume(e.Cond, e.Taken, v)
 			}
+			if e.Cond != nil && e.Tag != nil && !q.NoFlags {
+				if ok, w := g.tagEdge(e, v); !ok {
+					continue
+				} else {
+					nv = w
+				}
+			}
 			push(state{e.To, nv})
 		}
 	}
@@ -1629,6 +1908,13 @@ func (g *Graph) ReachVals(q Query) map[*GNode]map[Val]bool {
 					continue
 				}
 				nv = g.assume(e.Cond, e.Taken, v)
+			}
+			if e.Cond != nil && e.Tag != nil {
+				if ok, w := g.tagEdge(e, v); !ok {
+					continue
+				} else {
+					nv = w
+				}
 			}
 			push(state{e.To, nv})
 		}
